@@ -1,5 +1,5 @@
 //! C13 Every advertised option value is accepted and survivable.
-use super::searchlib::{build, gen_game, legal_in, run_search, Limit, SearchSpec};
+use super::searchlib::{build, gen_game_opts, legal_in, run_search, Limit, SearchSpec};
 use super::ucilib::*;
 use crate::engine::search::PersistentState;
 use crate::framework::*;
@@ -93,7 +93,7 @@ fn from_tape(data: &[u16], spins: &[Spin]) -> Vec<Step> {
             }
             3 => steps.push(if t.pick(2) == 0 { Step::IsReady } else { Step::NewGame }),
             4 => {
-                if let Some((fen, moves, _, _)) = gen_game(&mut t, 2, 8) {
+                if let Some((fen, moves, _, _)) = gen_game_opts(&mut t, 2, 8, false) {
                     steps.push(Step::Position { fen, moves });
                     have_position = true;
                 }
@@ -284,7 +284,7 @@ pub fn run(run: &mut Run) -> &'static str {
                 let n = [256usize, 257, 300][t.pick(3)];
                 for i in 0..n {
                     if i % 64 == 0 {
-                        if let Some((fen, moves, _, _)) = gen_game(&mut t, 1, 6) {
+                        if let Some((fen, moves, _, _)) = gen_game_opts(&mut t, 1, 6, false) {
                             steps.push(Step::Position { fen, moves });
                         }
                     }
